@@ -861,4 +861,26 @@ example : AllHex [52,54,51,97,99,51,53,99,57,102,54,52,49,51,97,100] ∧ NonZero
 example : B3.extract [0, 45, 255, 45, 45] [] [] [] = .ok none := by decide +kernel
 example : Jaeger.extract [58, 58, 58, 58, 58] = .ok none := by decide +kernel
 
+/-! ## Contexts without a valid span; the static id helpers on over-long text -/
+
+/-- **an invalid span context is never injected**, by none of the three propagators -/
+theorem invalid_never_injected (sc : SpanCtx) (h : sc.isValid = false) :
+    B3.injectSingle sc = none ∧ B3.injectMulti sc = none ∧ Jaeger.inject sc = none := by
+  simp [B3.injectSingle, B3.injectMulti, B3.injectMultiWith, Jaeger.inject, h]
+
+/-- … in particular the all-zero context `GetSpan` hands out for a context that holds no span (or a value of another
+    type under the span key) -/
+theorem no_span_never_injected (fl : UInt8) (remote : Bool) :
+    let sc : SpanCtx := { traceId := List.replicate 16 0, spanId := List.replicate 8 0, flags := fl, remote := remote, traceState := [] }
+    B3.injectSingle sc = none ∧ B3.injectMulti sc = none ∧ Jaeger.inject sc = none := by
+  intro sc
+  exact invalid_never_injected sc (by simp only [sc, SpanCtx.isValid]; rw [allZero_replicate 16]; rfl)
+
+/-- `TraceIdFromHex` / `SpanIdFromHex` called directly on text longer than the id: the zeroed buffer, i.e. the invalid id -/
+theorem idFromHex_overlong_invalid (s : Bytes) (n : Nat) (hl : s.length > 2 * n) :
+    Idx.hexToBinary s n = .ok (false, List.replicate n 0) ∧ allZero (List.replicate n 0) = true := by
+  refine ⟨?_, allZero_replicate n⟩
+  unfold Idx.hexToBinary
+  rw [if_pos (by omega)]
+
 end Otel.C16
